@@ -551,3 +551,74 @@ theorem olderThan_inrange (nowNs t life : Int) (ht : -9223372036854775808 ≤ t 
   rw [h1, h2]
 
 end Tongo.TonConnect
+
+namespace Tongo.TonConnect
+
+/-! ### big integer ↔ 32-byte key -/
+
+theorem beNat_lt (bs : List UInt8) : beNat bs < 256 ^ bs.length := by
+  induction bs with
+  | nil => simp [beNat]
+  | cons b t ih =>
+    rw [beNat_cons, List.length_cons, Nat.pow_succ]
+    have hb := UInt8.toNat_lt b
+    have h1 : b.toNat * 256 ^ t.length + beNat t < (b.toNat + 1) * 256 ^ t.length := by
+      rw [Nat.add_mul, Nat.one_mul]; omega
+    have h2 : (b.toNat + 1) * 256 ^ t.length ≤ 256 * 256 ^ t.length := Nat.mul_le_mul_right _ (by omega)
+    rw [Nat.mul_comm (256 ^ t.length) 256]
+    omega
+
+theorem beBytes_add_mul (n : Nat) : ∀ (x r : Nat), beBytes n (x * 256 ^ n + r) = beBytes n r := by
+  induction n with
+  | zero => intro x r; simp [beBytes]
+  | succ n ih =>
+    intro x r
+    rw [beBytes_succ, beBytes_succ]
+    have e : x * 256 ^ (n + 1) + r = (x * 256) * 256 ^ n + r := by rw [Nat.pow_succ, Nat.mul_assoc, Nat.mul_comm (256 ^ n) 256]
+    rw [e, ih (x * 256) r]
+    congr 2
+    rw [Nat.add_comm, Nat.add_mul_div_right _ _ (Nat.pow_pos (by decide)), Nat.add_mul_mod_self_right]
+
+theorem beBytes_beNat (bs : List UInt8) : beBytes bs.length (beNat bs) = bs := by
+  induction bs with
+  | nil => simp [beBytes]
+  | cons b t ih =>
+    have hlt := beNat_lt t
+    have hb := UInt8.toNat_lt b
+    rw [List.length_cons, beBytes_succ, beNat_cons]
+    have h1 : (b.toNat * 256 ^ t.length + beNat t) / 256 ^ t.length = b.toNat := by
+      rw [Nat.add_comm, Nat.add_mul_div_right _ _ (Nat.pow_pos (by decide)), Nat.div_eq_of_lt hlt, Nat.zero_add]
+    rw [h1, beBytes_add_mul, ih]
+    congr 1
+    apply UInt8.toNat_inj.mp
+    simp [UInt8.toNat_ofNat', Nat.mod_eq_of_lt hb]
+
+/-- the significant bytes of a number whose top byte is non-zero -/
+theorem natBytes_beNat_cons (b : UInt8) (t : List UInt8) (hb : b ≠ 0) : natBytes (beNat (b :: t)) = b :: t := by
+  have hbn : 1 ≤ b.toNat := by
+    have : b.toNat ≠ 0 := fun h => hb (UInt8.toNat_inj.mp (by simpa using h))
+    omega
+  have hlt := beNat_lt (b :: t)
+  have hlt' := beNat_lt t
+  have hge : 256 ^ t.length ≤ beNat (b :: t) := by
+    rw [beNat_cons]
+    calc 256 ^ t.length = 1 * 256 ^ t.length := by rw [Nat.one_mul]
+      _ ≤ b.toNat * 256 ^ t.length := Nat.mul_le_mul_right _ hbn
+      _ ≤ _ := Nat.le_add_right _ _
+  have hne : beNat (b :: t) ≠ 0 := by
+    have : 0 < 256 ^ t.length := Nat.pow_pos (by decide)
+    omega
+  have hlog : (beNat (b :: t)).log2 / 8 = t.length := by
+    have h1 : 8 * t.length ≤ (beNat (b :: t)).log2 := by
+      rw [Nat.le_log2 hne, Nat.pow_mul]; simpa using hge
+    have h2 : (beNat (b :: t)).log2 < 8 * (t.length + 1) := by
+      rw [Nat.log2_lt hne, Nat.pow_mul]; simpa using hlt
+    omega
+  unfold natBytes
+  rw [if_neg hne, hlog]
+  exact beBytes_beNat (b :: t)
+
+theorem beNat_zero_cons (t : List UInt8) : beNat (0 :: t) = beNat t := by
+  rw [beNat_cons]; simp
+
+end Tongo.TonConnect
